@@ -24,7 +24,8 @@ Definition mshape_eqb (a b : mshape) : bool :=
   | _, _ => false
   end.
 
-Inductive sub := SubI (k : Z) | SubR (lo hi : Z) | SubAll.
+(* k | lo:hi | : | lo:st:hi (constant three-part slice, any non-zero step) *)
+Inductive sub := SubI (k : Z) | SubR (lo hi : Z) | SubAll | SubR3 (lo st hi : Z).
 Inductive aop := AAdd | ASub | AEMul.
 Inductive aexpr :=
 | AVar (x : positive)
@@ -50,6 +51,14 @@ Definition m_sub (d : nat) (s : sub) : option (bool * list Z) :=
   | SubR lo hi => if in_range d lo && in_range d hi && (lo <=? hi)%Z
                   then Some (false, zrange lo (Z.to_nat (hi + 1 - lo))) else None
   | SubAll => Some (false, zrange 1 d)
+  | SubR3 lo st hi =>
+      (* element k of the result is x[lo + k*st]: the Modelica range lo:st:hi (empty slices are
+         outside the model) *)
+      if (st =? 0)%Z then None
+      else match modelica_range lo st hi with
+           | [] => None
+           | idx => if forallb (in_range d) idx then Some (false, idx) else None
+           end
   end.
 
 Definition marr := (mshape * (nat -> nat -> Qc))%type.
@@ -213,6 +222,20 @@ Definition c_sub (d : nat) (s : sub) : option (list Z) :=
   | SubR lo hi => if in_range d lo && in_range d hi && (lo <=? hi)%Z           (* range check 05b675f *)
                   then Some (zrange (lo - 1) (Z.to_nat (hi - (lo - 1)))) else None   (* slice(lo-1, hi) *)
   | SubAll => Some (zrange 0 d)                                                (* slice(None, None, 1) *)
+  | SubR3 lo st hi =>
+      (* constant bounds: picked = range(first, last +- 1, step); out of [1, dim] raises;
+         sl = slice(picked[0] - 1, None if end < 0 else end, step) with
+         end = picked[-1] - 1 +- 1 (end < 0 can only be -1 = "down to index 0") *)
+      if (st =? 0)%Z then None
+      else let picked := range_values lo st hi in
+           match picked with
+           | [] => None
+           | p0 :: _ =>
+               let pl := nth (length picked - 1) picked 0%Z in
+               if in_range d (Z.min p0 pl) && in_range d (Z.max p0 pl)
+               then Some (arange (p0 - 1) (pl - 1 + (if (0 <? st)%Z then 1 else -1)) st)
+               else None
+           end
   end.
 
 Section WithTable.
